@@ -13,6 +13,8 @@ import (
 func init() {
 	t, s := "internal/waroot/malloc/malloc.wat", "waroot/src/runtime/heap_malloc.wat.ws"
 	register(&Property{ID: "C10", Run: runC10, Mutants: []Mutant{
+		{Name: "shipped copy: spilling a fixed list leaves its first-node link in place", File: s, Old: "\t\tlocal.get $freep\n\t\ti32.const 0\n\t\ti32.const 0\n\t\tcall $heap_block.init\n\t)", New: "\t\tlocal.get $freep\n\t\ti32.const 0\n\t\tcall $heap_block.set_size\n\t)", Expect: "free-all-visits-every-node"},
+		{Name: "tested copy: rounding mask one hex digit short", File: t, Old: "\t\ti32.const 8\n\t\ti32.div_s\n\t\ti32.const 8\n\t\ti32.mul\n\t)", New: "\t\ti32.const 0xffffff8\n\t\ti32.and\n\t)", Expect: "class-ladder"},
 		{Name: "shipped copy: grow computed from the payload size", File: s, Old: "\t\t\t;; $pages = ($block_size+WASM_PAGE_SIZE-1) / WASM_PAGE_SIZE)\n\t\t\tlocal.get $block_size", New: "\t\t\t;; $pages = ($block_size+WASM_PAGE_SIZE-1) / WASM_PAGE_SIZE)\n\t\t\tlocal.get $size", Expect: "grow-covers-block"},
 		{Name: "tested copy: heap_top advanced by pages*4096", File: t, Old: "\t\t\t\tlocal.get $pages\n\t\t\t\ti32.const 65536\n\t\t\t\ti32.mul", New: "\t\t\t\tlocal.get $pages\n\t\t\t\ti32.const 4096\n\t\t\t\ti32.mul", Expect: "grow-covers-block"},
 		{Name: "shipped copy: exact-fit path leaves the rover on the unlinked block", File: s, Old: "\t\t\t\tcall $heap_block.set_next\n\n\t\t\t\t;; $__heap_l128_freep = $prevp\n\t\t\t\tlocal.get $prevp\n\t\t\t\tglobal.set $__heap_l128_freep\n\n\t\t\t\t;; $p.size 不变", New: "\t\t\t\tcall $heap_block.set_next\n\n\t\t\t\t;; $p.size 不变", Expect: "rover-follows-unlink"},
@@ -83,7 +85,7 @@ func runC10(c *Ctx) {
 	if watDumpPaths(c) {
 		return
 	}
-	c.Explain ="Decides structural clauses of the allocator from symbolic path summaries of its WAT source (watflow.go: every control-flow path followed with a symbolic operand stack, leaf accessors expanded, loops followed once with their variables unknown at the head; nothing is executed). The same rules run on both copies, the one the Go tests drive (internal/waroot/malloc/malloc.wat) and the one linked into every program (waroot/src/runtime/heap_malloc.wat.ws). " +
+	c.Explain = "Decides structural clauses of the allocator from symbolic path summaries of its WAT source (watflow.go: every control-flow path followed with a symbolic operand stack, leaf accessors expanded, loops followed once with their variables unknown at the head; nothing is executed). The same rules run on both copies, the one the Go tests drive (internal/waroot/malloc/malloc.wat) and the one linked into every program (waroot/src/runtime/heap_malloc.wat.ws). " +
 		"Clauses: grow-covers-block (bump amount = stored payload size + 8; the pages requested are ceil(X/64K) with X at least the deficit heap_ptr+block-heap_top; heap_top advances by pages·64K; the guard compares the same block size); " +
 		"rover-follows-unlink (every path of the ring scan that returns a block sets the rover to the predecessor); split-conserves / coalesce-conserves (header and payload bytes of the blocks before and after a split or a merge add up, the remainder starts where the allocated part ends); " +
 		"class-ladder (each size class is a positive multiple of 8, at least every request routed to it, small classes and their list heads are routed back to themselves when freed, a class of 0 can never be requested from the ring whose head has size 0); " +
